@@ -114,6 +114,7 @@ type vcCtx struct {
 	seenFact map[string]bool
 	fuel   int
 	allocs []*Term // references allocated so far (in execution order)
+	defined map[string]*Term // definitions of the constants introduced by define
 }
 
 func (c *vcCtx) assume(t *Term) {
@@ -259,7 +260,39 @@ func (f *frame) define(name string, t *Term) *Term {
 	}
 	c := Const(name, t.Sort)
 	f.c.facts = append(f.c.facts, Eq(c, t))
+	if f.c.defined == nil {
+		f.c.defined = map[string]*Term{}
+	}
+	f.c.defined[name] = t
 	return c
+}
+
+// reduceSel resolves a field selection on a named struct value through the value's definition
+// (function values stored in struct fields are recovered this way).
+func (f *frame) reduceSel(t *Term) *Term {
+	if f.c == nil || t == nil || len(t.Args) != 1 {
+		return t
+	}
+	a := t.Args[0]
+	for i := 0; i < 4 && a.Op == "" && a.Name != ""; i++ {
+		d, ok := f.c.defined[a.Name]
+		if !ok {
+			break
+		}
+		a = d
+	}
+	if a.Sort == nil || a.Sort.Kind != KData {
+		return t
+	}
+	for i := range a.Sort.Fields {
+		if a.Sort.selName(i) == t.Op {
+			r := SelField(a, i)
+			if r.String() != t.String() {
+				return r
+			}
+		}
+	}
+	return t
 }
 
 // ---- types, ranges, zero values -------------------------------------------------
@@ -402,7 +435,24 @@ func (e *Engine) nilIface() *Term { return App("nil.Iface", SIface) }
 
 // ---- state keys -----------------------------------------------------------------
 
-func typeKey(t types.Type) string { return types.TypeString(t, nil) }
+func typeKey(t types.Type) string { return types.TypeString(unaliasDeep(t), nil) }
+
+// unaliasDeep removes alias names at the top and inside map/slice/pointer/array types, so that
+// state keys do not depend on which spelling of a type an expression used.
+func unaliasDeep(t types.Type) types.Type {
+	t = types.Unalias(t)
+	switch u := t.(type) {
+	case *types.Pointer:
+		return types.NewPointer(unaliasDeep(u.Elem()))
+	case *types.Slice:
+		return types.NewSlice(unaliasDeep(u.Elem()))
+	case *types.Array:
+		return types.NewArray(unaliasDeep(u.Elem()), u.Len())
+	case *types.Map:
+		return types.NewMap(unaliasDeep(u.Key()), unaliasDeep(u.Elem()))
+	}
+	return t
+}
 
 func heapFieldKey(st types.Type, field string) string { return "H:" + typeKey(st) + "." + field }
 func heapCellKey(t types.Type) string                 { return "C:" + typeKey(t) }
